@@ -37,14 +37,14 @@ def three_ways(chk, stream, texts, spec=True):
     chk.compare(stream + "/next-loop", cn, i_n, m_n, nontrivial=lambda c, r: r.startswith("[ "), spec=spec)
     for c, r in zip(cn, i_n):
         check_invariant(chk, c, r)
-    for op in ("rslice", "rdecode"):
+    for op in ("rslice", "rdecode", "rparas"):
         cs = [(op, [t]) for t in texts]
         i_s = chk.run_impl(cs)
         chk.record(stream + "/" + op, cs, i_s)
         for c, r, ra in zip(cs, i_s, ia):
             if r != ra:
                 chk.violate({"kind": "property", "case": lib.show_case(c), "all_at_once": ra[:1500], op: r[:1500],
-                             "explanation": "reading all at once and %s see different paragraph sequences" % {"rslice": "decoding into a slice", "rdecode": "Decoder.Decode in a loop"}[op]})
+                             "explanation": "reading all at once and %s see different paragraph sequences" % {"rslice": "decoding into a slice", "rdecode": "Decoder.Decode in a loop", "rparas": "decoding into a []control.Paragraph"}[op]})
     # one reader used both ways: Next k times, then All for the rest
     cm = [("rmix", [t, str(k).encode()]) for t in texts[::3] for k in (1, 2)]
     i_m = chk.run_impl(cm)
